@@ -525,6 +525,15 @@ def rule_shapes(model):
                 elif isinstance(v, ast.BinOp):
                     # ('i',) + tuple(sections)
                     ok, head = model.fold(v.left, fi)
+                    if not ok and isinstance(v.left, ast.Tuple) and \
+                            v.left.elts and \
+                            isinstance(v.left.elts[0], ast.Constant) and \
+                            v.left.elts[0].value != 'i':
+                        # ('v', target) + quoting: opcode known, operands not
+                        produced.add(v.left.elts[0].value)
+                        r.instance(fi.where, v,
+                                   f'{v.left.elts[0].value}:(open)')
+                        continue
                     if ok and isinstance(head, tuple) and head:
                         produced.add(head[0])
                         seq = _list_sequence(model, fi, v.right)
